@@ -4,11 +4,22 @@ from .common import *
 from . import scheme as S
 
 
-def lib_source(lib):
+def lib_source(lib, layout=0):
+    """layout: the order of the library declarations, which has no meaning (R7RS 5.6.1: exports name bindings of the
+    library, whatever the body does to them before it has run to its end): 0 import/export/begin, 1 import/begin/export,
+    2 import/begin/export/begin with the body split in two"""
     imps = "".join(" (%s)" % i for i in lib["imports"])
     exps = " ".join(e[0] if e[0] == e[1] else "(rename %s %s)" % (e[0], e[1]) for e in lib["exports"])
-    body = "\n    ".join(S.render(f) for f in lib["body"])
-    return "(define-library (%s)\n  (import (scheme base)%s)\n  (export %s)\n  (begin\n    %s))\n" % (lib["name"], imps, exps, body)
+    forms = [S.render(f) for f in lib["body"]]
+    head = "(define-library (%s)\n  (import (scheme base)%s)" % (lib["name"], imps)
+    exp = "\n  (export %s)" % exps
+    beg = lambda fs: "\n  (begin\n    %s)" % "\n    ".join(fs)
+    if layout == 1 or len(forms) < 2:
+        return head + (exp + beg(forms) if layout == 0 else beg(forms) + exp) + ")\n"
+    if layout == 2:
+        k = max(1, len(forms) // 2)
+        return head + beg(forms[:k]) + exp + beg(forms[k:]) + ")\n"
+    return head + exp + beg(forms) + ")\n"
 
 
 def import_text(names, prefixes):
@@ -25,7 +36,7 @@ def job_for(jid, v, mode, filedir=None):
     steps = [{"op": "new", "i": 0}]
     if mode == "registered":
         for lib in world_libs(v):
-            steps.append({"op": "reglib", "i": 0, "name": [lib["name"]], "text": lib_source(lib)})
+            steps.append({"op": "reglib", "i": 0, "name": [lib["name"]], "text": lib_source(lib, jid % 3)})
     else:
         steps.append({"op": "progdir", "i": 0, "path": filedir})
     first = len(steps)
@@ -82,12 +93,14 @@ def run(ctx):
     # files: one directory with the .sld files, used as the program directory (not the process cwd)
     fdir = os.path.join(ctx.dir, "libs", "prog")
     shutil.rmtree(os.path.join(ctx.dir, "libs"), ignore_errors=True); os.makedirs(fdir)
-    for lib in world_libs(vecs[0]):
-        open(os.path.join(fdir, lib["name"] + ".sld"), "w").write(lib_source(lib))
+    for layout in (0, 1, 2):
+        os.makedirs(fdir + str(layout))
+        for lib in world_libs(vecs[0]):
+            open(os.path.join(fdir + str(layout), lib["name"] + ".sld"), "w").write(lib_source(lib, layout))
     for mode in ("registered", "files"):
         jobs, firsts = [], []
         for i, v in enumerate(vecs):
-            j, f = job_for(i, v, mode, fdir)
+            j, f = job_for(i, v, mode, fdir + str(i % 3))
             jobs.append(j); firsts.append(f)
         results = run_jobs(jobs, ctx.dir, tag="replay-" + mode, timeout=3000)
         for v, res, f in zip(vecs, results, firsts):
@@ -103,7 +116,7 @@ def run(ctx):
     ctx.stage("replay", histories=len(vecs), modes=["registered", "files"], exhaustive=True)
     ctx.sample({"program": describe(vecs[len(vecs) // 2]), "libraries": [lib_source(l) for l in world_libs(vecs[0])]})
     ctx.assumptions += ["imports precede every other form of the program (Ruschm rejects a later import; the properties are silent)",
-                        "an imported binding is observed through procedures; mutation of an exported variable itself is not exercised"]
+                        "the library declarations are written in three orders (export before, after and between two halves of the body)"]
     return ctx.finish(rule="every program of one import declaration (5 variants incl. the same library twice under a prefix and a library that itself imports the stateful one) followed by up to 3 (4 thorough) operations out of 13 "
                            "(calls of exports, redefinition of an imported name, colliding helper, unexported and internal names, a free name of a library procedure), plus TLC -simulate walks of 12 operations; "
                            "libraries as registered sources and as .sld files; non-trivial = distinct program")
